@@ -70,13 +70,24 @@ def canon(g, with_breakdown=True):
 def save_restore(g, ta, base):
     from hta.analyzers.critical_path_analysis import restore_cpgraph
 
-    out = os.path.join(base, f"save{len(os.listdir(base))}")
-    z = g.save(out)
+    n = len(os.listdir(base))
+    out = os.path.join(base, f"save{n}")
+    cwd = os.getcwd()
+    rel = (n % 2 == 1)          # every other save uses a path relative to the working directory
     try:
+        if rel:
+            os.chdir(base)
+            # restore_cpgraph unpacks under /tmp/<path as given>: a relative name must be unique across worker processes
+            out = f"save_{os.getpid()}_{n}"
+            z = g.save(out)
+        else:
+            z = g.save(out)
         r = restore_cpgraph(z, ta.t, 0)
     finally:
+        os.chdir(cwd)
         shutil.rmtree(os.path.join("/tmp", out.lstrip("/")), ignore_errors=True)
-        top = os.path.join("/tmp", out.lstrip("/").split("/")[0])
+        if rel:
+            shutil.rmtree(os.path.join("/tmp", out), ignore_errors=True)
     return r
 
 
